@@ -92,6 +92,15 @@ theorem ArgsTie_taskDecorator {X : Type} (a : DecoArgs X) (old : X) :
     (Generated.Args.taskMetaCreated.find? (fun kv => kv.1 == "markers")).map (·.2) = some "taskMark" := by
   refine ⟨rfl, rfl, rfl, rfl⟩
 
+/-- **The debugging wrappers are transparent.** With `pdb=True` (`wrap_function_for_post_mortem_debugging`) or `trace=True`
+(`wrap_function_for_tracing`) pytask replaces `task.function` by a wrapper; calling the wrapper gives exactly what calling the
+task function gives — same keyword arguments in, same return value (or exception) out — so the handling of the return value
+(`executeReturn`) sees the value the body returned, whatever build options are used. -/
+theorem ArgsTie_debugWrappers {K R : Type} (noArgs : K) (pyNone : R) (body : K → Option R) (kw : K) :
+    wrapCall Generated.Args.wrapPostMortem noArgs pyNone body kw = body kw ∧
+    wrapCall Generated.Args.wrapTracing noArgs pyNone body kw = body kw := by
+  constructor <;> simp [wrapCall, Generated.Args.wrapPostMortem, Generated.Args.wrapTracing] <;> cases body kw <;> rfl
+
 /-- `tree_util.py`: each wrapper the model's `leaves` / `map` / `mapWithPath` / `struct` / `paths` stand for is the optree function
 of the same name with `none_is_leaf=True` (so `None` is a leaf everywhere: `noneTree` is `.leaf`). -/
 theorem ArgsTie_treeUtil :
